@@ -8,6 +8,11 @@ package main
 // kind "session": a REAL client (internal handlers, optionally state tracking) connected over
 //                 the in-memory socket; the server end sends hostile lines and, every 50 lines
 //                 and at the end, "PING :VERIFMARK<k>", waiting for "PONG :VERIFMARK<k>".
+//                 Field 1 is the mode: bit 0 = state tracking, bit 1 = chunked delivery (some
+//                 lines written byte by byte, split inside CRLF, split mid-line, or coalesced
+//                 with the next line: framing must not depend on read chunking).  Sessions
+//                 contain over-long lines (around bufio's 4096-byte buffer, 5000, 8191+512,
+//                 20000, ~70000 bytes) followed by ordinary lines and a marker.
 //                 Each session runs in a CHILD PROCESS (this binary re-executed as
 //                 "h C02child") because an unrecovered panic on a goirc goroutine kills the
 //                 whole process; child crash / stall / missing pong = "dead".
@@ -120,7 +125,14 @@ func c02Exec(in Fields) Fields {
 
 func c02Class(in Fields) string {
 	if in.S(0) == "session" {
-		return fmt.Sprintf("session:tracking=%s:lines=%d", in.S(1), len(in)-2)
+		nlong := 0
+		for _, l := range in[2:] {
+			if len(l)+2 > 4096 {
+				nlong++
+			}
+		}
+		m := in.I(1)
+		return fmt.Sprintf("session:tracking=%d:chunked=%d:longlines=%d", m&1, (m>>1)&1, nlong)
 	}
 	raw := in.S(1)
 	origin := "other"
@@ -353,6 +365,67 @@ func c02SessionLine(r *Rand) string {
 	return s
 }
 
+// total wire lengths (line + CR LF) of the over-long lines: around bufio.Reader's default
+// 4096-byte buffer, beyond it, the IRCv3 maximum (8191 tag bytes + 512), and far beyond
+var c02LongLens = []int{4094, 4095, 4096, 4097, 4098, 4099, 4100, 5000, 8191 + 512, 20000}
+
+// a line of exactly total-2 bytes: a tagged PRIVMSG with a huge tag section, a plain long
+// trailing text, a long PING (must be answered), or a space-free blob
+func c02LongLine(r *Rand, total int) string {
+	n := total - 2
+	pad := func(prefix, suffix string, fill func(k int) string) string {
+		k := n - len(prefix) - len(suffix)
+		if k < 0 {
+			k = 0
+		}
+		return prefix + fill(k) + suffix
+	}
+	rep := func(unit string) func(int) string {
+		return func(k int) string {
+			return (strings.Repeat(unit, k/len(unit)+1))[:k]
+		}
+	}
+	switch r.Intn(6) {
+	case 0: // one huge tag value
+		return pad("@time=2020-01-01T00:00:00Z;big=", " :n1!u@h PRIVMSG #a :hi", rep("v"))
+	case 1: // very many small tags, with escapes
+		return pad("@", " :n1!u@h PRIVMSG vbot :\x01ACTION waves\x01", rep("k\\s=a\\:b;x;"))
+	case 2: // long trailing text
+		return pad(":n1!u@h PRIVMSG #a :", "", rep("lorem ipsum. "))
+	case 3: // long text inside a CTCP
+		return pad(":n1!u@h NOTICE vbot :\x01VERSION ", "\x01", rep("y"))
+	case 4: // very many arguments
+		return pad("353 vbot = #a :", "", rep("@n1 +n2 n3 "))
+	default: // no space at all
+		return pad("", "", rep("x"))
+	}
+}
+
+func c02Session(r *Rand, mode int) Fields {
+	in := F("session", mode)
+	var lines []string
+	for k := 0; k < 200; k++ {
+		lines = append(lines, c02SessionLine(r))
+	}
+	// over-long lines at PRNG-chosen positions, each followed by ordinary lines
+	nlong := r.Range(4, 7)
+	for k := 0; k < nlong; k++ {
+		total := c02LongLens[r.Intn(len(c02LongLens))]
+		if k == 0 {
+			total = r.Range(4094, 4100) // always one at the buffer boundary
+		}
+		if k == 1 && r.Chance(50) {
+			total = r.Range(66000, 74000) // beyond bufio.Scanner's 64 KiB token limit too
+		}
+		pos := r.Intn(len(lines) - 3)
+		lines = append(lines[:pos], append([]string{c02LongLine(r, total)}, lines[pos:]...)...)
+	}
+	for _, l := range lines {
+		in = append(in, []byte(l))
+	}
+	return in
+}
+
 func c02Gen(r *Rand, tier string, scale int, emit func(Fields)) {
 	maxLen, sessions := 3, 20
 	if tier == "thorough" {
@@ -398,13 +471,9 @@ func c02Gen(r *Rand, tier string, scale int, emit func(Fields)) {
 	for i := 0; i < nhigh; i++ {
 		emit(F("parse", c02NonASCII(r)))
 	}
-	// 6. sessions through a real connection, both tracking modes
+	// 6. sessions through a real connection: tracking off/on x whole-line/chunked delivery
 	for i := 0; i < sessions; i++ {
-		in := F("session", i%2)
-		for k := 0; k < 200; k++ {
-			in = append(in, []byte(c02SessionLine(r)))
-		}
-		emit(in)
+		emit(c02Session(r, i%4))
 	}
 }
 
@@ -505,7 +574,9 @@ func c02ChildMain() {
 		say("bad-input")
 		os.Exit(4)
 	}
-	tracking := in.S(1) == "1"
+	mode := in.I(1)
+	tracking := mode&1 == 1
+	chunked := mode&2 == 2
 	lines := in[2:]
 
 	ms := NewMemServer("c02child")
@@ -534,7 +605,7 @@ func c02ChildMain() {
 		say("connect-failed %v", err)
 		os.Exit(4)
 	}
-	say("connected tracking=%v lines=%d", tracking, len(lines))
+	say("connected tracking=%v chunked=%v lines=%d", tracking, chunked, len(lines))
 	mark := 0
 	syncMark := func() {
 		mark++
@@ -550,16 +621,51 @@ func c02ChildMain() {
 		say("ok mark=%d connected=%v", mark, c.Connected())
 	}
 	syncMark()
-	for i, l := range lines {
-		say("send %d %x", i, l)
+	write := func(i int, b []byte) {
 		srvConn.SetWriteDeadline(time.Now().Add(10 * time.Second))
-		if _, err := srvConn.Write(append(append([]byte{}, l...), '\r', '\n')); err != nil {
+		if _, err := srvConn.Write(b); err != nil {
 			say("stalled line=%d write: %v", i, err)
 			os.Exit(3)
+		}
+	}
+	var carry []byte // a line held back to be coalesced with the next one
+	for i, l := range lines {
+		head := l
+		if len(head) > 48 {
+			head = head[:48]
+		}
+		say("send %d len=%d %x", i, len(l), head)
+		wire := append(append(carry, l...), '\r', '\n')
+		carry = nil
+		style := 0
+		if chunked {
+			style = (i*7 + len(l)) % 6
+		}
+		switch {
+		case style == 1 && len(wire) <= 6000: // byte by byte
+			for k := range wire {
+				write(i, wire[k:k+1])
+			}
+		case style == 2: // split between CR and LF
+			write(i, wire[:len(wire)-1])
+			write(i, wire[len(wire)-1:])
+		case style == 3: // split just before CR LF
+			write(i, wire[:len(wire)-2])
+			write(i, wire[len(wire)-2:])
+		case style == 4 && len(wire) > 3: // split mid-line
+			write(i, wire[:len(wire)/2])
+			write(i, wire[len(wire)/2:])
+		case style == 5 && i+1 < len(lines) && (i+1)%50 != 0: // coalesce with the next line
+			carry = wire
+		default:
+			write(i, wire)
 		}
 		if (i+1)%50 == 0 {
 			syncMark()
 		}
+	}
+	if carry != nil {
+		write(len(lines), carry)
 	}
 	syncMark()
 	if !c.Connected() {
